@@ -69,6 +69,7 @@ func (ps *PeriodicSyncer) logErrorAndSleep(err error) {
 func (ps *PeriodicSyncer) writePersistentState() error {
 	// A lock should be held across all of the calls below to ensure
 	// both goroutines don't overwrite each other's persistent state.
+	verifYield(context.Background(), "syncer.storeLock")
 	ps.storeLock.Lock()
 	defer ps.storeLock.Unlock()
 
